@@ -4,7 +4,8 @@ correspondence: generated schemas (2-4 classes created dynamically, private regi
 class with every cascade setting, self references, related joins declared from one or both sides) x populations
 of <= 6 rows x every victim, run through the real `destroySelf` on in-memory SQLite (cached and cache=False
 connections) and through the Lean model driver (`drv_c12`); two further scenarios go through the same pipeline:
-'conn2' (the classes' default connection is one database, the objects live on an explicit second connection with another
+'fault' (a post_func / RowDestroyedSignal listener of a row of the closure raises: oracle only — whatever was deleted must not be
+reachable by id), 'conn2' (the classes' default connection is one database, the objects live on an explicit second connection with another
 population: every access with connection=; the default database must be neither consulted nor changed),
 'tx' (file-backed SQLite in a mkdtemp directory: rows loaded and held through the parent connection, the victim destroyed
 through `conn.transaction()` + commit, everything observed on the parent: get(id) of every closure member must raise
@@ -75,6 +76,30 @@ _built = {}
 
 _tmpdir = []
 _default_conn = {}
+_bomb = [None]      # ('post' | 'destroyed', class name, id): the callback of that row raises
+
+
+class Boom(Exception):
+    """raised by a post-destroy callback / RowDestroyedSignal listener of the harness"""
+
+
+def install_listeners(classes):
+    from sqlobject import events
+
+    def on_destroy(inst, post_funcs):
+        def post(inst):
+            b = _bomb[0]
+            if b and b[0] == 'post' and b[1] == type(inst).__name__ and b[2] == inst.id:
+                raise Boom('post_func of %s %d' % (b[1], b[2]))
+        post_funcs.append(post)
+
+    def on_destroyed(inst, post_funcs):
+        b = _bomb[0]
+        if b and b[0] == 'destroyed' and b[1] == type(inst).__name__ and b[2] == inst.id:
+            raise Boom('RowDestroyedSignal listener of %s %d' % (b[1], b[2]))
+    for cls in classes:
+        events.listen(on_destroy, cls, events.RowDestroySignal, weak=False)
+        events.listen(on_destroyed, cls, events.RowDestroyedSignal, weak=False)
 
 
 def scratch_dir():
@@ -143,6 +168,8 @@ def build(classes, cached, mode='plain', case=None):
             cls.createTable(connection=cn)
         for t in sorted(tables):
             cn.query('CREATE TABLE lt%d (ca INT, cb INT)' % t)
+    if mode == 'fault':
+        install_listeners(out)
     if mode == 'evolve':
         # schema evolution: use the classes (one destroySelf per class, so that anything remembered about the
         # dependency graph is remembered), then add a foreign key / related join at run time
@@ -243,14 +270,20 @@ def run_impl(case):
                 victim = classes[vc].get(vi, connection=conn)
             else:
                 victim = classes[vc].get(vi)
+            if mode == 'fault':
+                _bomb[0] = (case['bomb'][0], NAMES[case['bomb'][1]], case['bomb'][2])
             victim.destroySelf()
             outcome = 'ok'
         except sqlobject.main.SQLObjectIntegrityError:
             outcome = 'refused'
         except RecursionError:
             outcome = 'fuel'
+        except Boom:
+            outcome = 'boom'
         except Exception as e:  # any other exception of the real code is an observable outcome
             outcome = 'error:' + sqlo.exc_name(e)
+        finally:
+            _bomb[0] = None
         if tx is not None:
             try:
                 if outcome == 'ok':
@@ -511,6 +544,13 @@ def gen_cases(ctx):
                 yield d
                 exp = oracle(c)
                 if exp[0] == 'ok' and not exp[4]['cycle']:
+                    for kind in ('post', 'destroyed'):
+                        for bc, bi in (exp[4]['closure'][0], exp[4]['closure'][-1]):
+                            b = dict(c)
+                            b['mode'] = 'fault'
+                            b['bomb'] = [kind, bc, bi]
+                            yield b
+                if exp[0] == 'ok' and not exp[4]['cycle']:
                     t = dict(c)
                     t['mode'] = 'tx'
                     yield t
@@ -533,6 +573,15 @@ def gen_cases(ctx):
         if s % 4 == 2:
             for case in gen_evolved(rng, classes, cached):
                 yield case
+        if s % 4 == 0:
+            # a post-destroy callback (post_func / RowDestroyedSignal listener) of a row of the closure raises
+            for c, i, vals in rows:
+                case = {'cache': cached, 'classes': classes, 'rows': rows, 'links': links, 'victim': [c, i], 'mode': 'fault'}
+                exp = oracle(case)
+                if exp[0] == 'ok' and not exp[4]['cycle']:
+                    bc, bi = rng.choice(exp[4]['closure'])
+                    case['bomb'] = [rng.choice(['post', 'destroyed']), bc, bi]
+                    yield case
         if s % 4 == 3:
             # the whole scenario on an explicit second connection; the default connection's database holds another
             # population (same ids where possible, other references), which must be neither consulted nor changed
@@ -577,6 +626,15 @@ def judge(ctx, case, impl):
                         'database of the class\'s default connection: %r, was %r' % (stale[0][1], stale[0][2]), case)
     elif stale:
         ctx.oracle_fail('C12:stale-instance:' + sig, 'a surviving instance shows %r, its row holds %r' % (stale[0][1], stale[0][2]), case)
+    ghosts = [x for x in reach if tuple(x[:2]) not in {(c, i) for c, i, _ in rows}]
+    if ghosts:
+        ctx.oracle_fail('C12:deleted-row-still-reachable', 'after destroySelf (outcome %s%s) the rows of %r are deleted but get(id) / a held '
+                        'instance still answers for them (cache=%s)' % (outcome, ', a post-destroy callback raised' if outcome == 'boom' else '',
+                                                                       ghosts, case['cache']), case)
+        return
+    if outcome == 'boom':
+        ctx.count('a post-destroy callback raised: no deleted row is reachable')
+        return
     if outcome == 'fuel':
         if info['cycle']:
             ctx.oracle_fail(K_CYCLE, 'destroySelf on a victim whose cascade closure contains a cycle of rows ends in '
@@ -628,7 +686,7 @@ def initial_dump(case):
 
 def canon(case):
     return model_line(case) + (' cached' if case['cache'] else ' uncached') + ' ' + case.get('mode', 'plain') + \
-        (json.dumps(case['late']) if case.get('late') else '')
+        (json.dumps(case['late']) if case.get('late') else '') + (json.dumps(case['bomb']) if case.get('bomb') else '')
 
 
 def nontrivial(case):
@@ -980,7 +1038,7 @@ def run(ctx):
         if len(exp[4]['closure']) >= 3:
             ctx.count('closure of >= 3 rows')
         judge(ctx, case, impl)
-        if outs is not None:
+        if outs is not None and outcome != 'boom':
             m = parse_model(outs[idx])
             ctx.compare('outcome: model = destroySelf', case, m[0], outcome)
             ctx.compare('tables after: model = raw dump', case, m[1], rows)
